@@ -446,10 +446,7 @@ func check(init map[string]string, committed []T, final map[string]string) (stri
 func Run(r *report.Run) int {
 	rounds := r.Pick(200, 5000)
 	lines, died := par.Run(r, "c02-worker", 8, rounds, 1700, nil)
-	for _, d := range died {
-		r.Inconclusive("worker-died")
-		r.Set("worker_death", d)
-	}
+	conc.ReportDeaths(r, "C02", died)
 	for _, l := range lines {
 		var res RoundRes
 		if json.Unmarshal(l.Res, &res) != nil {
